@@ -206,7 +206,9 @@ class TokenStore(Generic[_T]):
         end_i, end_j = end
 
         for token in tokens:
-            if token.store_handle is not None and not start <= (token.store_handle.block.index, token.store_handle.index) < end:
+            if token.store_handle is not None and not (
+                    token.store_handle.block.store is self and
+                    start <= (token.store_handle.block.index, token.store_handle.index) < end):
                 raise ValueError('Token already in a store.')
 
         if start_i == end_i:
